@@ -595,14 +595,22 @@ def parse_equation(equation: str) -> List[Symbol]:
     terms = parse_equation_terms(equation)
 
     # Construct standardised and code representations of the equation
-    template = equation
-    for match in reversed(list(term_re.finditer(equation))):
+    def escape_braces(text: str) -> str:
+        # Any braces outside the terms aren't replacement fields: escape
+        # them to survive `str.format()` below
+        return text.replace('{', '{{').replace('}', '}}')
+
+    template = ''
+    position = 0
+    for match in term_re.finditer(equation):
         # Skip Python keywords, which yield unnamed groups
         if not any(match.groups()):
             continue
 
         start, end = match.span()
-        template = f'{template[:start]}{{}}{template[end:]}'
+        template += escape_braces(equation[position:start]) + '{}'
+        position = end
+    template += escape_braces(equation[position:])
 
     # fmt: off
     template = re.sub(r'\s+',   ' ', template)  # Remove repeated whitespace
